@@ -30,20 +30,76 @@ func intTerm(x *Sym) string {
 	return app("ite", app("bvslt", x.e, bvLit(64, 0)), app("-", app("bv2nat", x.e), "18446744073709551616"), app("bv2nat", x.e))
 }
 
-func (it *interpreter) boundedASCII(fr *frame, s *Sym) {
-	it.assume(fr, &Sym{SBool, app("<=", app("str.len", s.e), fmt.Sprint(strBound))})
-	it.assume(fr, &Sym{SBool, app("str.in_re", s.e, app("re.*", app("re.range", `"\u{0}"`, `"\u{7f}"`)))})
+// decompose case-splits a symbolic string on its length (0..strBound; longer strings are outside the
+// claim and end the path) and names its characters as integer code points 0..127, so that per-character
+// functions become integer arithmetic (the string solvers do badly on nested str.at / ite chains).
+func (it *interpreter) decompose(fr *frame, s *Sym) []string {
+	if it.strChars == nil {
+		it.strChars = map[string][]string{}
+	}
+	if d, ok := it.strChars[s.e]; ok {
+		return d
+	}
 	it.res.strBounded = true
+	for k := 0; k <= strBound; k++ {
+		cond := &Sym{SBool, app("=", app("str.len", s.e), fmt.Sprint(k))}
+		if k == strBound {
+			it.assume(fr, cond)
+		} else if !it.branch(fr, cond) {
+			continue
+		}
+		sv := it.solver
+		chars := make([]string, k)
+		parts := make([]string, k)
+		for i := range chars {
+			sv.auxN++
+			c := fmt.Sprintf("|$aux%d|", sv.auxN)
+			sv.Declare(c, SInt)
+			sv.Assert(app("and", app(">=", c, "0"), app("<=", c, "127")))
+			chars[i] = c
+			parts[i] = app("str.from_code", c)
+		}
+		sv.Assert(app("=", s.e, concatTerm(parts)))
+		it.strChars[s.e] = chars
+		return chars
+	}
+	return nil
 }
 
-func caseMap(s *Sym, lo, hi string, delta int) *Sym {
-	var parts []string
-	for i := 0; i < strBound; i++ {
-		c := app("str.at", s.e, fmt.Sprint(i))
-		is := app("and", app("=", app("str.len", c), "1"), app("str.<=", lo, c), app("str.<=", c, hi))
-		parts = append(parts, app("ite", is, app("str.from_code", app("+", app("str.to_code", c), fmt.Sprint(delta))), c))
+func intLit(n int) string {
+	if n < 0 {
+		return fmt.Sprintf("(- %d)", -n)
 	}
-	return &Sym{SStr, app("str.++", parts...)}
+	return fmt.Sprint(n)
+}
+
+func concatTerm(parts []string) string {
+	switch len(parts) {
+	case 0:
+		return `""`
+	case 1:
+		return parts[0]
+	}
+	return app("str.++", parts...)
+}
+
+// caseMap maps every character in [lo,hi] by delta; the result is a named string whose characters are known.
+func (it *interpreter) caseMap(fr *frame, s *Sym, lo, hi, delta int) *Sym {
+	chars := it.decompose(fr, s)
+	mapped := make([]string, len(chars))
+	parts := make([]string, len(chars))
+	for i, c := range chars {
+		m := app("ite", app("and", app("<=", fmt.Sprint(lo), c), app("<=", c, fmt.Sprint(hi))), app("+", c, intLit(delta)), c)
+		mapped[i] = it.solver.Name(SInt, m)
+		parts[i] = it.solver.Name(SStr, app("str.from_code", mapped[i]))
+		// valid lemmas tying the character classes of the one-character string to its code point
+		it.solver.Assert(app("=", app("str.len", parts[i]), "1"))
+		it.solver.Assert(app("=", app("str.in_re", parts[i], `(re.range "A" "Z")`), app("and", app("<=", "65", mapped[i]), app("<=", mapped[i], "90"))))
+		it.solver.Assert(app("=", app("str.in_re", parts[i], `(re.range "a" "z")`), app("and", app("<=", "97", mapped[i]), app("<=", mapped[i], "122"))))
+	}
+	r := it.solver.Name(SStr, concatTerm(parts))
+	it.strChars[r] = mapped
+	return &Sym{SStr, r}
 }
 
 func init() {
@@ -52,15 +108,23 @@ func init() {
 			abortf("symbolic strconv.FormatInt supports base 10 only")
 		}
 		x := lift(args[0])
-		n := intTerm(x)
+		sv := fr.i.solver
+		// n is the signed value of x, introduced definitionally without bv2nat (the solvers cannot mix
+		// bv2nat with the string theory): the unique integer in [-2^63, 2^63) whose two's complement is x
+		sv.auxN++
+		n := fmt.Sprintf("|$aux%d|", sv.auxN)
+		sv.Declare(n, SInt)
+		sv.Assert(app("and", app(">=", n, "(- 9223372036854775808)"), app("<=", n, "9223372036854775807")))
+		sv.Assert(app("=", app("(_ int2bv 64)", n), x.e))
 		// valid lemmas about the decimal numeral of |n| (they only help the string solver)
-		absn := app("ite", app("<", n, "0"), app("-", n), n)
-		num := app("str.from_int", absn)
-		fr.i.solver.Assert(app("=", app("str.to_int", num), absn))
-		fr.i.solver.Assert(app("not", app("str.prefixof", `"-"`, num)))
-		fr.i.solver.Assert(app("not", app("str.prefixof", `"+"`, num)))
-		fr.i.solver.Assert(app(">=", app("str.len", num), "1"))
-		return &Sym{SStr, app("ite", app("<", n, "0"), app("str.++", `"-"`, num), num)}
+		absn := sv.Name(SInt, app("ite", app("<", n, "0"), app("-", n), n))
+		num := sv.Name(SStr, app("str.from_int", absn))
+		sv.Assert(app("=", app("str.to_int", num), absn))
+		sv.Assert(app("not", app("str.prefixof", `"-"`, num)))
+		sv.Assert(app("not", app("str.prefixof", `"+"`, num)))
+		sv.Assert(app(">=", app("str.len", num), "1"))
+		sv.Assert(app("str.in_re", num, `(re.+ (re.range "0" "9"))`))
+		return &Sym{SStr, sv.Name(SStr, app("ite", app("<", n, "0"), app("str.++", `"-"`, num), num))}
 	})
 	externals["strconv.ParseInt"] = symOrHost(native(strconv.ParseInt), func(fr *frame, args []value) value {
 		it := fr.i
@@ -74,8 +138,8 @@ func init() {
 		s := lift(args[0])
 		neg := app("str.prefixof", `"-"`, s.e)
 		plus := app("str.prefixof", `"+"`, s.e)
-		digits := app("ite", app("or", neg, plus), app("str.substr", s.e, "1", app("-", app("str.len", s.e), "1")), s.e)
-		n := app("str.to_int", digits) // -1 unless digits is a non-empty digit string
+		digits := it.solver.Name(SStr, app("ite", app("or", neg, plus), app("str.substr", s.e, "1", app("-", app("str.len", s.e), "1")), s.e))
+		n := it.solver.Name(SInt, app("str.to_int", digits)) // -1 unless digits is a non-empty digit string
 		inRange := app("ite", neg, app("<=", n, "9223372036854775808"), app("<=", n, "9223372036854775807"))
 		ok := &Sym{SBool, app("and", app(">=", n, "0"), inRange)}
 		if it.branch(fr.caller, ok) {
@@ -112,13 +176,11 @@ func init() {
 	})
 	externals["strings.ToLower"] = symOrHost(native(strings.ToLower), func(fr *frame, args []value) value {
 		s := lift(args[0])
-		fr.i.boundedASCII(fr.caller, s)
-		return caseMap(s, `"A"`, `"Z"`, 32)
+		return fr.i.caseMap(fr.caller, s, 'A', 'Z', 32)
 	})
 	externals["strings.ToUpper"] = symOrHost(native(strings.ToUpper), func(fr *frame, args []value) value {
 		s := lift(args[0])
-		fr.i.boundedASCII(fr.caller, s)
-		return caseMap(s, `"a"`, `"z"`, -32)
+		return fr.i.caseMap(fr.caller, s, 'a', 'z', -32)
 	})
 	// FormatFloat on a term: the result is a fresh string constrained by the
 	// documented output grammar of the verb, tied to the class of the input
